@@ -871,6 +871,10 @@ fn main() {
             "--tmpl" => { tmpl = args[i + 1].clone(); i += 2; }
             "--out" => { outp = args[i + 1].clone(); i += 2; }
             "--map" => { mapp = args[i + 1].clone(); i += 2; }
+            "--dropscan" => {
+                dropscan(&repo, &args[i + 1..]);
+                return;
+            }
             "--unsafescan" => {
                 unsafescan(&repo, &args[i + 1..]);
                 return;
@@ -1353,6 +1357,40 @@ fn unsafescan(repo: &str, files: &[String]) {
         let src = SourceFile::load(repo, f);
         let mut v = V { src: &src, fns: vec![], calls: vec![], closure_depth: 0, closure_call: vec![] };
         v.visit_file(&src.ast);
+    }
+}
+
+/// --dropscan file...: field order of every struct and the body of every `impl Drop`
+fn dropscan(repo: &str, files: &[String]) {
+    for f in files {
+        let src = SourceFile::load(repo, f);
+        for it in &src.ast.items {
+            match it {
+                syn::Item::Struct(st) => {
+                    let mut names = vec![];
+                    if let syn::Fields::Named(nf) = &st.fields {
+                        for fl in &nf.named {
+                            if let Some(id) = &fl.ident { names.push(id.to_string()); }
+                        }
+                    }
+                    println!("STRUCT\t{}\t{}\t{}", src.rel, st.ident, names.join(","));
+                }
+                syn::Item::Impl(im) => {
+                    if let Some((_, p, _)) = &im.trait_ {
+                        if p.segments.last().map(|s| s.ident == "Drop").unwrap_or(false) {
+                            let ty = type_last_ident(&im.self_ty).unwrap_or_default();
+                            for ii in &im.items {
+                                if let syn::ImplItem::Fn(fun) = ii {
+                                    let (s, e) = src.range(fun.block.span());
+                                    println!("DROP\t{}\t{}\t{}", src.rel, ty, norm_ws(&src.text[s..e]));
+                                }
+                            }
+                        }
+                    }
+                }
+                _ => {}
+            }
+        }
     }
 }
 
